@@ -433,6 +433,16 @@ func (m *Manager) lock() {
 				acctInfo.acctKeyPriv.Zero()
 			}
 			acctInfo.acctKeyPriv = nil
+
+			// The cached last addresses of the account are address
+			// objects of their own, not necessarily found in the
+			// address map below.
+			if ma, ok := acctInfo.lastExternalAddr.(*managedAddress); ok {
+				ma.lock()
+			}
+			if ma, ok := acctInfo.lastInternalAddr.(*managedAddress); ok {
+				ma.lock()
+			}
 		}
 	}
 
